@@ -602,11 +602,7 @@ func isSuggest(targetT base.T, sig base.Sig) bool {
 		return true
 	}
 
-	if isStaticTarget != sig.IsStatic {
-		return false
-	}
-
-	if sig.Class == objectClass {
+	if sig.Class == objectClass && isStaticTarget == sig.IsStatic {
 		return true
 	}
 
@@ -629,10 +625,6 @@ func isParentClass(
 		return false
 	}
 
-	if sig.IsStatic != isStaticTarget {
-		return false
-	}
-
 	if sig.Method == "new" {
 		return false
 	}
@@ -642,7 +634,8 @@ func isParentClass(
 	}
 
 	if sig.Frame == frame && sig.Class == class {
-		return true
+		// an extended module gives its instance methods to the class itself
+		return sig.IsStatic == (isStaticTarget && !isExtend)
 	}
 
 	classNode := base.ClassNode{Frame: frame, Class: class}
